@@ -44,7 +44,7 @@ The oracle looks at the implementation alone (see `oracle`).
 `!path:parent(n)` is checked against the n-th ancestor DIRECTORY of the file the node was written in, also when the
 file was reached under a relative name with `..` components (repo fix D25; before it the lexical `pathlib` parents of
 the source name were used, `../m/f.yaml`, parent(2) -> cwd).  Such cases are ordinary violations again."""
-import os, sys, json, copy, re, shutil, tempfile, ast, posixpath
+import os, sys, json, copy, re, shutil, tempfile, ast, posixpath, random
 from common import *          # first: puts the working tree of the implementation on sys.path
 from framework import Prop
 from evalrun import WorldImpl, conv_val, renumber, compare_config, canon_model_config
@@ -52,6 +52,7 @@ from props.mergefam import strip_ids, doc_features, shrink_docs
 from awesomeyaml.eval_context import EvalContext
 import gen_merge as G
 import gen_eval as GE
+import srcfam as SRC     # case family `sources`: add_source / add_multiple_sources / Config.build up to the calls of yaml.parse
 
 VBASE = os.path.realpath(tempfile.gettempdir())
 VROOT = posixpath.join(VBASE, 'AYC06ROOT')          # virtual root: same depth as the real temp roots
@@ -647,16 +648,22 @@ class C06(Prop):
                     sname='sub/c.yaml', seach=True, arrs=['inclist', 'spread', 'nested_spread']),
             mk_case([M({'x': S(1)}), M({'x': S(2)}), M({'y': S(3)})], sdirs=['p', 'p/r', ''], shared=[True, True, True],
                     place=['both', 'inc', 'missing'], maindir='m', cwd='m/n', sname='../c.yaml', arrs=['inclist', 'spread', 'nested_spread']),
-        ]
+        ] + SRC.corpus()
 
     def gen_cases(self, rng, n, tier):
-        return [gen_case(rng, tier) for _ in range(n)]
+        cases = [gen_case(rng, tier) for _ in range(n)]
+        r2 = random.Random(rng.random())      # drawn after the others: those stay as they were
+        return cases + [SRC.gen_sources_case(r2) for _ in range(max(1, n // 2))]
 
     # ------------------------------------------------------------------ both sides
     def impl(self, case):
+        if case.get('kind') == 'sources':
+            return SRC.impl(case)
         return {a: impl_arr(case, a, self.WORLD) for a in case['arrs']}
 
     def model_requests(self, case):
+        if case.get('kind') == 'sources':
+            return SRC.model_requests(case)
         reqs = []
         for a in case['arrs']:
             p = plan(case, a, VROOT)
@@ -696,11 +703,15 @@ class C06(Prop):
         return None
 
     def model_obs(self, case, answers):
+        if case.get('kind') == 'sources':
+            return SRC.model_obs(case, answers)
         mo = dict(zip(case['arrs'], answers))
         mo['__paths__'] = answers[len(case['arrs'])] if len(answers) > len(case['arrs']) else None
         return mo
 
     def compare(self, case, io, mo):
+        if case.get('kind') == 'sources':
+            return SRC.compare(case, io, mo)
         skipped = 0
         if mo.get('__paths__') is not None:
             if 'bad' in mo['__paths__']:
@@ -734,6 +745,8 @@ class C06(Prop):
 
     # ------------------------------------------------------------------ the property on the implementation alone
     def oracle(self, case, io, ans):
+        if case.get('kind') == 'sources':
+            return SRC.oracle(case, io, ans)
         arrs = case['arrs']
         plans = {a: plan(case, a, VROOT) for a in arrs}
         has_missing = any(p == 'missing' for p in case['place'])
@@ -876,13 +889,19 @@ class C06(Prop):
         return None if loc == exp else f'!path:{ref} {comps} written in {file_abs} denotes {loc}, expected {exp}'
 
     def finding_key(self, case, desc):
+        if case.get('kind') == 'sources':
+            return SRC.finding_key(case, desc)
         return None
 
     # ------------------------------------------------------------------ bookkeeping
     def nontrivial(self, case, io):
+        if case.get('kind') == 'sources':
+            return SRC.nontrivial(case, io)
         return len(case['docs']) >= 2 and len(case['arrs']) >= 2
 
     def features(self, case, io):
+        if case.get('kind') == 'sources':
+            return SRC.features(case, io)
         f = set(doc_features([{'raw': d} for d in case['docs']]))
         f = {x for x in f if not x.startswith('stages=')}
         f.add(f'docs={len(case["docs"])}'); f.add(f'files={len(case["groups"])}')
@@ -914,6 +933,9 @@ class C06(Prop):
         return sorted(f)
 
     def shrink(self, case):
+        if case.get('kind') == 'sources':
+            yield from SRC.shrink(case)
+            return
         arrs = case['arrs']
         # fewer arrangements (keep a pair so that agreement oracles still apply)
         if len(arrs) > 2:
@@ -981,6 +1003,8 @@ class C06(Prop):
         return c
 
     def render(self, case):
+        if case.get('kind') == 'sources':
+            return SRC.render(case)
         style = case.get('style', ['flow', 0, 0])
         out = {'maindir': case['maindir'] or '.', 'cwd': case['cwd'] or '.', 'main': 'absolute' if case['mainabs'] else 'relative',
                'safe': case.get('safe'), 'arrangements': case['arrs'], 'files': []}
